@@ -86,6 +86,12 @@ func (e *Engine) hbAccess(key interface{}, write bool, where string) {
 	if len(e.threads) <= 1 || e.cur == nil {
 		return
 	}
+	// accesses performed by harness and model code (zz_verif files, the intrinsics
+	// package) are not monitored: the third-party services they stand for are
+	// internally synchronised; repository code is always monitored
+	if where == "" && e.curInstr != nil && e.curInstr.Parent() != nil && !e.preemptHereFn(e.curInstr.Parent()) {
+		return
+	}
 	h, ok := e.cells[key]
 	if !ok {
 		h = &cellHist{rs: map[int]*access{}}
